@@ -83,35 +83,28 @@ theorem established_requires (cfg : Cfg) (rib : Bool) (evs : List Event) :
   obtain ⟨_, h1, h2, h3⟩ := hinv.main k.id k hp hk rfl
   exact ⟨k, hk, hp, h1, h2, h3⟩
 
-/-- **C05, no UPDATE / End-of-RIB / ROUTE-REFRESH outside ESTABLISHED — full statement.**
-    `∀ evs, ∀ c k st, send c k st ∈ trace → isData k → st = ESTABLISHED`.  It is FALSE of the
-    unchanged code (`send_only_established_fails`); what the proof forces is that the main loop
-    is never left running on a connection it did not establish (`NoStale`): -/
-theorem send_only_established_partial (cfg : Cfg) (rib : Bool) (evs : List Event)
-    (hns : NoStale (init cfg rib) evs) :
+/-- **C05, no UPDATE / End-of-RIB / ROUTE-REFRESH outside ESTABLISHED (full).** For every list of
+    events, every write of one of these kinds is labelled ESTABLISHED (and by `labels_are_the_state`
+    the label is the FSM state at that moment).  Until /repo 3a62d00 this was false (F30 family,
+    F88): the main loop of a session whose transport had been dropped by `shutdown()` went on
+    writing on a connection adopted meanwhile; it now ends with `Interrupted`. -/
+theorem send_only_established (cfg : Cfg) (rib : Bool) (evs : List Event) :
     ∀ c k st, Out.send c k st ∈ trace cfg rib evs → isData k = true → st = .established := by
-  obtain ⟨g, h, _⟩ := run_acc (strict := true) evs _ g0 (rel_init cfg rib) (inv_init cfg rib) (fun _ => hns)
+  obtain ⟨g, h⟩ := run_accepted_strict cfg rib evs
   exact accepted_data_established h
 
 def plain : Cfg := { passive := false, maxAttempts := 0, hold0 := false, graceful := false }
 
-/-- **finding (F30 family, what is left of it).** `shutdown()` / `remove()` drop `peer.proto`
-    under the main loop.  Since /repo 4250e99 a stopped peer refuses incoming connections — but
-    `reestablish()` / `teardown()` re-arm `_restart`, and a connection adopted then, before the old
-    loop's next iteration, still gets the queued ROUTE-REFRESH: written in state IDLE on a
-    connection on which no OPEN was ever sent.  Replayed on the real `Peer` by
-    `corpus/C05/f30-refresh-in-idle-rearmed.json`. -/
-theorem send_only_established_fails :
-    Out.send 2 .refresh .idle ∈
-      trace plain false [.start, .connectOk, .recv 1 (.openOk false), .recv 1 .keepalive, .queueRefresh, .stop,
-        .reestablish, .incoming, .tick] := by
+/-- F88 repaired: `shutdown()`, `reestablish()` re-arms the peer, an incoming connection is adopted
+    before the old loop's next iteration — which now writes nothing on it and closes it
+    (`corpus/C05/f30-refresh-in-idle-rearmed.json`). -/
+example :
+    (step (run (init plain false) [.start, .connectOk, .recv 1 (.openOk false), .recv 1 .keepalive, .queueRefresh, .stop,
+        .reestablish, .incoming]).1 .tick).2 = [.fsm .idle .idle, .close 2] := by
   decide
 
-/-- the repaired shape: without the re-arming the stopped peer refuses the connection and the old
-    loop ends without writing anything. -/
+/-- ... and without the re-arming the stopped peer refuses the connection (/repo 4250e99). -/
 example :
-    (run (step (run (init plain false) [.start, .connectOk, .recv 1 (.openOk false), .recv 1 .keepalive, .queueRefresh, .stop]).1
-      .incoming).1 [.tick]).2 = [.fsm .idle .idle] ∧
     (step (run (init plain false) [.start, .connectOk, .recv 1 (.openOk false), .recv 1 .keepalive, .queueRefresh, .stop]).1
       .incoming).2 = [.reject 2, .close 2] := by
   decide
@@ -156,11 +149,6 @@ example :
        .send 1 .update .established, .send 1 .eor .established,
        .send 1 (.notification 6 4) .established, .down, .fsm .established .idle, .close 1,
        .fsm .idle .active, .fsm .active .idle] := by decide
-
-/-- `NoStale` holds on it. -/
-example : NoStale (init plain true) [.start, .connectOk, .recv 1 (.openOk false), .recv 1 .keepalive, .tick] := by
-  unfold NoStale
-  decide
 
 /-- two sessions: `up`, `down`, `up` again. -/
 example :
